@@ -207,6 +207,11 @@ func (p *Parser) ParseArgs(args []string) ([]string, error) {
 		return nil, p.internalError
 	}
 
+	// The active command chain is determined by this parse only
+	p.eachCommand(func(c *Command) {
+		c.Active = nil
+	}, true)
+
 	p.eachOption(func(c *Command, g *Group, option *Option) {
 		option.clearReferenceBeforeSet = true
 		option.updateDefaultLiteral()
